@@ -46,9 +46,14 @@ class Ctx:
         self.counters = {}
         self.samples = []
         self.t0 = time.time()
+        self.default_features = ()
+        self.default_overflow = True
+        self.prefix = ''
 
     # ---- extraction
-    def extraction(self, features=(), overflow_checks=True, reach=True):
+    def extraction(self, features=None, overflow_checks=None, reach=True):
+        features = self.default_features if features is None else features
+        overflow_checks = self.default_overflow if overflow_checks is None else overflow_checks
         key = (tuple(sorted(features)), overflow_checks)
         if key not in self._ex:
             ex = extract.Extraction(features=features, overflow_checks=overflow_checks, reach=reach).run()
@@ -56,7 +61,9 @@ class Ctx:
             self.configs.append(ex.label())
         return self._ex[key]
 
-    def prog(self, features=(), overflow_checks=True, reach=True):
+    def prog(self, features=None, overflow_checks=None, reach=True):
+        features = self.default_features if features is None else features
+        overflow_checks = self.default_overflow if overflow_checks is None else overflow_checks
         key = (tuple(sorted(features)), overflow_checks)
         if key not in self._prog:
             ex = self.extraction(features, overflow_checks, reach)
@@ -80,9 +87,11 @@ class Ctx:
         return '%s|%s|%s|%s' % (self.pid, rule, instance, slug)
 
     def ok(self, rule, instance, what='', span=None, **detail):
+        instance = self.prefix + instance
         self.obligations.append(dict(rule=rule, instance=instance, verdict='ok', what=what, span=span, detail=detail))
 
     def violation(self, rule, instance, slug, what, span=None, kind='violation', **detail):
+        instance = self.prefix + instance
         self.obligations.append(dict(rule=rule, instance=instance, verdict=kind, key=self._key(rule, instance, slug), what=what, span=span, detail=detail))
 
     def unrecognised(self, rule, instance, slug, what, span=None, **detail):
@@ -151,6 +160,8 @@ def main():
         mod = importlib.import_module('rules.' + pid.lower())
         try:
             mod.run(ctx)
+            if args.tier == 'thorough' and replay_key is None:
+                thorough_extras(ctx, mod, pid)
         except AnchorMissing as e:
             ctx.violation('anchor', str(e), 'missing', 'anchor definition `%s` not found in the crate (rule cannot be evaluated; fail closed)' % e, kind='unrecognised')
         except extract.ExtractError as e:
@@ -196,6 +207,45 @@ def main():
         write_evidence(ctx, n_ok, len(seen_keys), n_known, len(new), wall)
     print('%s tier=%s: %d obligations ok, %d violation keys (%d known, %d new), %.1fs' % (pid, args.tier, n_ok, len(seen_keys), n_known, len(new), wall))
     sys.exit(1 if new else 0)
+
+
+ALT_CONFIGS = {
+    # property -> list of (features, overflow_checks): the same rules re-run on other build configurations
+    'C02': [(('rand', 'regex', 'serde'), True)], 'C03': [((), False), (('rand', 'regex', 'serde'), True)], 'C04': [(('rand', 'regex', 'serde'), True)],
+    'C05': [(('rand', 'regex', 'serde'), True)], 'C06': [((), False), (('rand', 'regex', 'serde'), True)], 'C07': [(('rand', 'regex', 'serde'), True)],
+    'C08': [(('rand', 'regex', 'serde'), True)], 'C11': [(('rand', 'regex', 'serde'), True)], 'C12': [(('rand', 'regex', 'serde'), True)],
+    'C13': [(('rand', 'regex', 'serde'), True)], 'C14': [(('rand', 'regex', 'serde'), True)], 'C15': [(('rand', 'regex'), True)],
+}
+
+
+def thorough_extras(ctx, mod, pid):
+    """thorough tier: (1) the same rules on alternative build configurations, (2) the seeded-mutant self-test of this property's rules"""
+    if os.environ.get('EVX_NO_EXTRAS'):
+        return
+    for feats, ovf in ALT_CONFIGS.get(pid, []):
+        ctx.default_features, ctx.default_overflow = feats, ovf
+        ctx.prefix = 'cfg[%s%s]:' % (','.join(feats) or 'default', '' if ovf else ',overflow-checks=off')
+        try:
+            mod.run(ctx)
+        finally:
+            ctx.default_features, ctx.default_overflow, ctx.prefix = (), True, ''
+    import mutate
+    ms = [m for m in mutate.load_mutants() if pid in m['properties']]
+    import concurrent.futures
+    with concurrent.futures.ThreadPoolExecutor(max_workers=8) as ex:
+        results = list(ex.map(lambda m: mutate.run_one(m, only=pid), ms))
+    n_skip = 0
+    for m, r in zip(ms, results):
+        st = r['status']
+        if st == 'skipped':
+            n_skip += 1
+            ctx.notes.append('mutant %s skipped: patch no longer applies to the current tree' % m['id'])
+            continue
+        good = st in ('caught', 'silent-ok')
+        what = ('seeded mutant is reported by rule(s) %s' % m.get('rules')) if m.get('expect', 'violation') != 'silent' else 'behaviour-preserving edit stays silent'
+        ctx.check(good, 'selftest', 'mutant:' + m['id'], 'selftest', '%s (status %s; %s)' % (what, st, '; '.join(r.get('detail', []))[:300]))
+    ctx.counters['mutants_run'] = len(ms) - n_skip
+    ctx.counters['mutants_skipped'] = n_skip
 
 
 def write_evidence(ctx, n_ok, n_keys, n_known, n_new, wall):
